@@ -33,7 +33,7 @@ Definition all_written : list string :=
   flat_map snd setter_writes ++ ["JsonUseNumber"; "CustomDecoder"; "XmlCharsetReader"].
 
 Definition never_assigned : list string :=
-  filter (fun n => negb (existsb (String.eqb n) all_written)) option_vars.
+  Eval vm_compute in filter (fun n => negb (existsb (String.eqb n) all_written)) option_vars.
 
 Lemma assoc_s_in : forall n k t, In n (assoc_s k t) -> In n (flat_map snd t).
 Proof.
@@ -58,14 +58,23 @@ Proof.
     apply (set_frame st c st1 Ea). intro Hin. apply Hn. exact (call_writes_all c n Hin).
 Qed.
 
-Lemma never_assigned_spec : forall n, In n never_assigned -> ~ In n all_written.
+Lemma never_assigned_check :
+  forallb (fun n => negb (existsb (String.eqb n) all_written)) never_assigned = true.
+Proof. vm_compute. reflexivity. Qed.
+
+Lemma not_mem_from_check : forall (ws vars : list string),
+  forallb (fun n => negb (existsb (String.eqb n) ws)) vars = true ->
+  forall n, In n vars -> ~ In n ws.
 Proof.
-  intros n H Hin. unfold never_assigned in H. apply filter_In in H. destruct H as [_ H].
-  apply negb_true_iff in H.
-  assert (X : existsb (String.eqb n) all_written = true).
+  intros ws vars Hc n H Hin. rewrite forallb_forall in Hc. specialize (Hc n H).
+  apply negb_true_iff in Hc.
+  assert (X : existsb (String.eqb n) ws = true).
   { apply existsb_exists. exists n. split; [exact Hin | apply String.eqb_refl]. }
-  rewrite X in H. discriminate H.
+  rewrite X in Hc. discriminate Hc.
 Qed.
+
+Lemma never_assigned_spec : forall n, In n never_assigned -> ~ In n all_written.
+Proof. exact (not_mem_from_check all_written never_assigned never_assigned_check). Qed.
 
 Theorem never_assigned_unchanged : forall h st,
   run h gstate0 = Some st ->
@@ -76,20 +85,38 @@ Proof.
 Qed.
 
 (* ---- symbolic execution of [restore] ---- *)
-Lemma run_cons : forall c t st,
-  run (c :: t) st = match apply_call st c with Some st' => run t st' | None => None end.
-Proof. reflexivity. Qed.
+Lemma run_step : forall c t st st1 r,
+  apply_call st c = Some st1 -> run t st1 = r -> run (c :: t) st = r.
+Proof. intros c t st st1 r Ha Hr. cbn [run]. rewrite Ha. exact Hr. Qed.
 
-Ltac step :=
-  rewrite run_cons; cbn [apply_call];
-  rewrite ?XMLEscapeChars_char, ?XMLEscapeCharsDecoder_char, ?SetArraySize_char, ?LeafUseDotNotation_char,
-          ?SetFieldSeparator_char, ?PrependAttrWithHyphen_char,
-          ?IncludeTagSeqNum_char, ?CoerceKeysToLower_char, ?DisableTrimWhiteSpace_char, ?SetAttrPrefix_char,
-          ?CoerceKeysToSnakeCase_char, ?CastValuesToInt_char, ?HandleXMPPStreamTag_char,
-          ?DecodeSimpleValuesAsMap_char, ?CastNanInf_char, ?CastValuesToFloat_char, ?CastValuesToBool_char,
-          ?SetCheckTagToSkipFunc_char, ?XmlGoEmptyElemSyntax_char, ?XmlDefaultEmptyElemSyntax_char,
-          ?XmlCheckIsValid_char;
-  unfold toggle_spec; cbv beta iota.
+Ltac use_char L := rewrite L; unfold toggle_spec, arg_or; cbv beta iota; reflexivity.
+Ltac apply_char :=
+  cbn [apply_call];
+  lazymatch goal with
+  | |- set_XMLEscapeChars _ _ = _ => use_char XMLEscapeChars_char
+  | |- set_XMLEscapeCharsDecoder _ _ = _ => use_char XMLEscapeCharsDecoder_char
+  | |- set_LeafUseDotNotation _ _ = _ => use_char LeafUseDotNotation_char
+  | |- set_SetFieldSeparator _ _ = _ => use_char SetFieldSeparator_char
+  | |- set_PrependAttrWithHyphen _ _ = _ => use_char PrependAttrWithHyphen_char
+  | |- set_IncludeTagSeqNum _ _ = _ => use_char IncludeTagSeqNum_char
+  | |- set_CoerceKeysToLower _ _ = _ => use_char CoerceKeysToLower_char
+  | |- set_DisableTrimWhiteSpace _ _ = _ => use_char DisableTrimWhiteSpace_char
+  | |- set_SetAttrPrefix _ _ = _ => use_char SetAttrPrefix_char
+  | |- set_CoerceKeysToSnakeCase _ _ = _ => use_char CoerceKeysToSnakeCase_char
+  | |- set_CastValuesToInt _ _ = _ => use_char CastValuesToInt_char
+  | |- set_HandleXMPPStreamTag _ _ = _ => use_char HandleXMPPStreamTag_char
+  | |- set_DecodeSimpleValuesAsMap _ _ = _ => use_char DecodeSimpleValuesAsMap_char
+  | |- set_CastNanInf _ _ = _ => use_char CastNanInf_char
+  | |- set_CastValuesToFloat _ _ = _ => use_char CastValuesToFloat_char
+  | |- set_CastValuesToBool _ _ = _ => use_char CastValuesToBool_char
+  | |- set_SetCheckTagToSkipFunc _ _ = _ => use_char SetCheckTagToSkipFunc_char
+  | |- set_XmlGoEmptyElemSyntax _ = _ => use_char XmlGoEmptyElemSyntax_char
+  | |- set_XmlDefaultEmptyElemSyntax _ = _ => use_char XmlDefaultEmptyElemSyntax_char
+  | |- set_XmlCheckIsValid _ _ = _ => use_char XmlCheckIsValid_char
+  | |- context [set_SetArraySize _ _] => rewrite SetArraySize_char; reflexivity
+  | |- Some _ = _ => reflexivity
+  end.
+Ltac step := eapply run_step; [apply_char|].
 
 Lemma restore_from_inv : forall st,
   Inv st ->
@@ -100,17 +127,18 @@ Proof.
   destruct HI as (_ & _ & _ & _ & _ & p0 & Hp0 & Hk).
   unfold restore.
   do 13 step.
-  (* SetGlobalKeyMapPrefix "#" : the current keys are those of st *)
-  rewrite run_cons. cbn [apply_call]. rewrite SetGlobalKeyMapPrefix_char.
-  match goal with |- context [key_list ?cur] => rewrite (keys_nonempty p0 cur Hk) end.
-  cbv beta iota.
+  eapply run_step.
+  { cbn [apply_call]. rewrite SetGlobalKeyMapPrefix_char.
+    match goal with |- context [key_list ?cur] => rewrite (keys_nonempty p0 cur Hk) end.
+    reflexivity. }
   do 9 step.
   cbn [run]. f_equal. apply st_ext.
   destruct Hk as (H1 & H2 & H3 & H4 & H5 & H6 & H7 & H8).
   unfold never_assigned in HU.
-  lazy -[rekey] in HU |- *.
-  rewrite H1, H2, H3, H4, H5, H6, H7, H8.
-  rewrite !(rekey_punct p0) by (try exact Hp0; unfold key_suffixes; cbn [In]; auto 10).
+  destruct st. cbn in H1, H2, H3, H4, H5, H6, H7, H8. subst.
+  lazy -[rekey] in HU.
+  lazy -[rekey].
+  rewrite !(rekey_punct p0) by (try exact Hp0; unfold key_suffixes; cbn; auto 10).
   repeat match goal with H : Forall _ (_ :: _) |- _ => inversion H; clear H; subst end.
   repeat f_equal; congruence.
 Qed.
